@@ -46,7 +46,7 @@ def main():
     if args.replay:
         return replay(prop, H, args.replay)
 
-    broken = {'translator': [], 'theorems': [], 'audit': [], 'correspondence': [], 'oracle': []}
+    broken = {'translator': [], 'pins': [], 'theorems': [], 'audit': [], 'correspondence': [], 'oracle': []}
     stats = {'tally': vlib.Tally()}
 
     # ---- 1. translator
@@ -64,6 +64,16 @@ def main():
             nev, bad = 0, [f'translator self-check crashed: {type(e).__name__}: {e}'[:300]]
         stats['translator_selfcheck_evaluations'] = nev
         for b_ in bad: broken['translator'].append('translator self-check: ' + b_)
+
+    # ---- 1b. source-skeleton pins of the hand-modelled functions (tools/pins.py)
+    import pins
+    try:
+        pin_bad = pins.check(prop, REPO)
+    except Exception as e:
+        pin_bad = [f'pin check crashed: {type(e).__name__}: {e}'[:300]]
+    for b_ in pin_bad: broken['pins'].append(b_)
+    stats['pinned_functions'] = sum(len(v) for v in json.load(open(os.path.join(HERE, 'pins', f'{prop}.json'))).values()) \
+        if os.path.exists(os.path.join(HERE, 'pins', f'{prop}.json')) else 0
 
     # ---- 2. build + audit
     module = f'LentilVerif.Props.{prop}'
@@ -193,7 +203,7 @@ def main():
     stats['disagreements'] = len(disagreements)
 
     # ---- 4./5. verdict
-    tie_broken = any(broken[k] for k in ('translator', 'theorems', 'audit', 'correspondence'))
+    tie_broken = any(broken[k] for k in ('translator', 'pins', 'theorems', 'audit', 'correspondence'))
     unknown_viol = []
     for c, msg in oracle_fail:
         kf = match_finding(H, findings, prop, c, msg)
@@ -275,6 +285,7 @@ def write_evidence(prop, args, seed, t0, H, stats, thms, discharged, violations)
             'unproven_clauses': list(getattr(H, 'UNPROVEN', [])),
             'translated_sources': stats.get('gen', {}),
             'translator_selfcheck_evaluations': stats.get('translator_selfcheck_evaluations', 0),
+            'pinned_functions': stats.get('pinned_functions', 0),
             'evaluations': stats.get('evaluations', 0),
             'distinct_nontrivial': stats.get('distinct_nontrivial', 0),
             'distinct': stats.get('distinct', 0),
